@@ -15,6 +15,28 @@ type msgByte struct {
 	msg  *value // pointer to a private deep copy of the message struct
 	typ  types.Type
 	torn bool // a truncated encoding (crash model): decoding yields ErrUnexpectedEOF
+	npad int  // number of padByte values that follow (so that len() approximates the size)
+}
+
+// padByte fills an encoding up to its stand-in size.
+type padByte struct{}
+
+// encode returns the opaque encoding of the message at p.
+func (in *Interp) encode(p *value, t types.Type) []value {
+	cp := in.deepCopy(p, map[*value]*value{}).(*value)
+	n := in.sizeOf(*cp)
+	if n < 1 {
+		n = 1
+	}
+	if n > 1<<16 {
+		n = 1 << 16
+	}
+	out := make([]value, n)
+	out[0] = msgByte{msg: cp, typ: t, npad: n - 1}
+	for i := 1; i < n; i++ {
+		out[i] = padByte{}
+	}
+	return out
 }
 
 // deepCopy clones a value graph reachable through pointers, slices and maps.
@@ -65,7 +87,7 @@ func (in *Interp) deepCopy(v value, seen map[*value]*value) value {
 		return out
 	case iface:
 		return iface{t: v.t, v: in.deepCopy(v.v, seen)}
-	case msgByte:
+	case msgByte, padByte:
 		return v
 	}
 	return v
@@ -148,6 +170,9 @@ func (in *Interp) protoEqual(x, y value) *Term {
 		return tc.True()
 	case *Chan, *Opaque, unsafePtr, rtype:
 		return tc.True()
+	case padByte:
+		_, ok := y.(padByte)
+		return tc.Bool(ok)
 	}
 	panic(engineErr("protoEqual: unhandled %T", x))
 }
@@ -199,8 +224,7 @@ func registerProto() {
 		if p == nil {
 			return tuple{[]value(nil), iface{}}
 		}
-		cp := in.deepCopy(p, map[*value]*value{}).(*value)
-		return tuple{[]value{msgByte{msg: cp, typ: t}}, iface{}}
+		return tuple{in.encode(p, t), iface{}}
 	}
 	I[P+"Unmarshal"] = func(in *Interp, fr *frame, fn *ssa.Function, a []value) value {
 		b := a[0].([]value)
@@ -211,8 +235,13 @@ func registerProto() {
 			return iface{}
 		}
 		mb, ok := b[0].(msgByte)
-		if len(b) != 1 || !ok || mb.torn || !types.Identical(mb.typ, t) {
+		if !ok || mb.torn || !types.Identical(mb.typ, t) || len(b) != 1+mb.npad {
 			return in.newErr("proto: cannot parse invalid wire-format data")
+		}
+		for _, x := range b[1:] {
+			if _, isPad := x.(padByte); !isPad {
+				return in.newErr("proto: cannot parse invalid wire-format data")
+			}
 		}
 		*p = *(in.deepCopy(mb.msg, map[*value]*value{}).(*value))
 		return iface{}
@@ -221,8 +250,7 @@ func registerProto() {
 	I[D+"MarshalTo"] = func(in *Interp, fr *frame, fn *ssa.Function, a []value) value {
 		w := a[0].(iface)
 		p, t := msgPtr(a[1])
-		cp := in.deepCopy(p, map[*value]*value{}).(*value)
-		buf := []value{msgByte{msg: cp, typ: t}}
+		buf := in.encode(p, t)
 		m := in.lookupMethodByName(w, "Write")
 		r := in.callValue(m, w.v, buf).(tuple)
 		return tuple{r[0], r[1]}
@@ -241,6 +269,15 @@ func registerProto() {
 			return in.ioErr("ErrUnexpectedEOF")
 		case !ok || !types.Identical(mb.typ, t):
 			return in.newErr("protodelim: malformed message")
+		}
+		for i := 0; i < mb.npad; i++ {
+			res := in.callValue(m, r.v).(tuple)
+			if err := res[1].(iface); err.t != nil {
+				return in.ioErr("ErrUnexpectedEOF")
+			}
+			if _, isPad := res[0].(padByte); !isPad {
+				return in.newErr("protodelim: malformed message")
+			}
 		}
 		*p = *(in.deepCopy(mb.msg, map[*value]*value{}).(*value))
 		return iface{}
@@ -272,6 +309,16 @@ func (in *Interp) sizeOf(v value) int {
 	case []value:
 		n := 0
 		for _, f := range v {
+			switch f := f.(type) {
+			case *Term:
+				if f.w == 8 {
+					n++ // a byte of a bytes field
+					continue
+				}
+			case msgByte, padByte:
+				n++
+				continue
+			}
 			n += in.sizeOf(f)
 		}
 		return n
